@@ -1,6 +1,156 @@
 package props
 
-// Child dispatches isolated child-process roles (crash-prone readers, second runs).
+import (
+	"bufio"
+	"bytes"
+	"encoding/json"
+	"fmt"
+	"os"
+	"os/exec"
+	"runtime"
+	"strings"
+	"sync"
+	"time"
+)
+
+// Child-process isolation for crash-prone code (C15, C18) and for second runs (C14).
+// The parent feeds jobs (JSON lines) to `vcheck --child <role>`; the child answers one
+// JSON line per job.  If the child dies, hangs or exhausts its address space on a job,
+// that job gets the outcome crash/hang/oom and a fresh child continues with the next.
+
+var childRoles = map[string]func(job map[string]any) map[string]any{}
+
 func Child(args []string) int {
-	return 2
+	if len(args) < 1 {
+		return 2
+	}
+	f, ok := childRoles[args[0]]
+	if !ok {
+		fmt.Fprintln(os.Stderr, "unknown child role", args[0])
+		return 2
+	}
+	in := bufio.NewScanner(os.Stdin)
+	in.Buffer(make([]byte, 1<<20), 1<<26)
+	out := bufio.NewWriter(os.Stdout)
+	for in.Scan() {
+		var job map[string]any
+		if json.Unmarshal(in.Bytes(), &job) != nil {
+			continue
+		}
+		var ms0, ms1 runtime.MemStats
+		runtime.ReadMemStats(&ms0)
+		res := f(job)
+		runtime.ReadMemStats(&ms1)
+		if res == nil {
+			res = map[string]any{}
+		}
+		res["alloc_mb"] = int((ms1.TotalAlloc - ms0.TotalAlloc) >> 20)
+		b, _ := json.Marshal(res)
+		out.Write(b)
+		out.WriteByte('\n')
+		out.Flush()
+	}
+	return 0
+}
+
+// runChildren shards jobs over nproc children; results are returned in job order.
+func runChildren(role string, jobs []map[string]any, perJob time.Duration, memLimitKB int64, nproc int) []map[string]any {
+	res := make([]map[string]any, len(jobs))
+	if nproc < 1 {
+		nproc = 1
+	}
+	var wg sync.WaitGroup
+	for w := 0; w < nproc; w++ {
+		wg.Add(1)
+		go func(w int) {
+			defer wg.Done()
+			var idx []int
+			for i := w; i < len(jobs); i += nproc {
+				idx = append(idx, i)
+			}
+			runChildSeq(role, jobs, idx, res, perJob, memLimitKB)
+		}(w)
+	}
+	wg.Wait()
+	return res
+}
+
+func runChildSeq(role string, jobs []map[string]any, idx []int, res []map[string]any, perJob time.Duration, memLimitKB int64) {
+	self, _ := os.Executable()
+	pos := 0
+	for pos < len(idx) {
+		cmd := exec.Command("sh", "-c", fmt.Sprintf("ulimit -v %d; exec %s --child %s", memLimitKB, self, role))
+		stdin, _ := cmd.StdinPipe()
+		stdout, _ := cmd.StdoutPipe()
+		var stderr bytes.Buffer
+		cmd.Stderr = &stderr
+		if err := cmd.Start(); err != nil {
+			for ; pos < len(idx); pos++ {
+				res[idx[pos]] = map[string]any{"out": "infra", "detail": err.Error()}
+			}
+			return
+		}
+		lines := make(chan string, 16)
+		go func() {
+			sc := bufio.NewScanner(stdout)
+			sc.Buffer(make([]byte, 1<<20), 1<<26)
+			for sc.Scan() {
+				lines <- sc.Text()
+			}
+			close(lines)
+		}()
+		alive := true
+		for alive && pos < len(idx) {
+			b, _ := json.Marshal(jobs[idx[pos]])
+			if _, err := stdin.Write(append(b, '\n')); err != nil {
+				alive = false
+			}
+			var line string
+			ok := false
+			if alive {
+				select {
+				case l, open := <-lines:
+					if open {
+						line, ok = l, true
+					} else {
+						alive = false
+					}
+				case <-time.After(perJob):
+					alive = false
+					cmd.Process.Kill()
+					res[idx[pos]] = map[string]any{"out": "hang", "detail": fmt.Sprintf("no answer within %v", perJob)}
+					pos++
+					continue
+				}
+			}
+			if ok {
+				var r map[string]any
+				if json.Unmarshal([]byte(line), &r) != nil {
+					r = map[string]any{"out": "infra", "detail": "bad child line " + line}
+				}
+				res[idx[pos]] = r
+				pos++
+				continue
+			}
+			// child died on this job
+			cmd.Wait()
+			e := stderr.String()
+			out := "crash"
+			if strings.Contains(e, "out of memory") || strings.Contains(e, "cannot allocate memory") {
+				out = "oom"
+			}
+			if len(e) > 600 {
+				e = e[:600]
+			}
+			res[idx[pos]] = map[string]any{"out": out, "detail": e}
+			pos++
+		}
+		stdin.Close()
+		if alive {
+			cmd.Wait()
+		} else {
+			cmd.Process.Kill()
+			cmd.Wait()
+		}
+	}
 }
